@@ -2767,6 +2767,13 @@ def breakout_common_code_in_ifs(source: str) -> str:
                 yield r, None, transaction
 
 
+def _literal_value_or_none(code: str) -> object:
+    try:
+        return ast.literal_eval(code)
+    except (ValueError, SyntaxError):
+        return None
+
+
 @processing.fix
 def invalid_escape_sequence(source: str) -> str:
     """Prepend 'r' to invalid escape sequences
@@ -2807,6 +2814,7 @@ def invalid_escape_sequence(source: str) -> str:
             and code[0] in "'\""
             and "\\" in code
             and not any(sequence in code for sequence in valid_escape_sequences)
+            and _literal_value_or_none("r" + code) == node.value
         ):
             yield node, "r" + code
 
